@@ -9,7 +9,7 @@
    every run (Schema/Run.v + harness/c18), not proved. *)
 From Coq Require Import ZArith QArith List String NArith.
 From GSP Require Import Base.Prelude Schema.Json Schema.Regex Schema.Model Schema.Spec
-  Schema.ThRegex Schema.ThJson Schema.Theory Schema.Decide Schema.Fuel Schema.Complete Schema.Total Schema.Adequate.
+  Schema.ThRegex Schema.ThJson Schema.Theory Schema.Decide Schema.Fuel Schema.Complete Schema.Total Schema.Adequate Schema.JsonText Schema.TextGlue.
 Import ListNotations.
 
 (* MAIN STATEMENT.  For every environment of $ref targets, every schema whose $ref
@@ -259,3 +259,66 @@ Theorem C18_glue_processor :
   processor_validate_data true data schema = validate_data data schema.
 Proof. exact glue_processor. Qed.
 Print Assumptions C18_glue_processor.
+
+(* ---- the wrapper on TEXT: the JSON well-formedness gate on BOTH inputs ----
+   `parse_json s = Some v` iff s is exactly one JSON value (Schema/JsonText.v);
+   every other byte string, as data or as schema, is reported as an error *)
+Theorem C18_malformed_rejected :
+  forall data schema : string,
+  parse_json schema = None \/ parse_json data = None ->
+  exists t, validate_text data schema = Err t.
+Proof. exact malformed_rejected. Qed.
+Print Assumptions C18_malformed_rejected.
+
+Theorem C18_trailing_text_rejected :
+  forall (l : list N) (v : json) (rest : list N),
+  parse_value (S (S (2 * List.length l))) l = Some (v, rest) -> all_ws rest = false -> parse_bytes l = None.
+Proof. exact trailing_text_rejected. Qed.
+Print Assumptions C18_trailing_text_rejected.
+
+Theorem C18_one_value_only :
+  forall (l : list N) (v : json),
+  parse_bytes l = Some v <->
+  exists rest, parse_value (S (S (2 * List.length l))) l = Some (v, rest) /\ all_ws rest = true.
+Proof. exact parse_bytes_spec. Qed.
+Print Assumptions C18_one_value_only.
+
+Theorem C18_text_exact :
+  forall (data schema : string) o sj c,
+  parse_json data = Some (JObj o) -> parse_json schema = Some sj -> compile_root sj = Ok c ->
+  (validate_text data schema = Ok tt <-> Valid (c_env c) (c_root c) (JObj o)) /\
+  (validate_text data schema = Err "invalid" <-> ~ Valid (c_env c) (c_root c) (JObj o)).
+Proof. exact text_exact. Qed.
+Print Assumptions C18_text_exact.
+
+Theorem C18_text_total :
+  forall data schema : string,
+  validate_text data schema = Ok tt \/ exists t, validate_text data schema = Err t.
+Proof. exact text_total. Qed.
+Print Assumptions C18_text_total.
+
+(* ---- the Processor facade over optional components: the configured validator's
+   verdict on the SAME data and schema (no re-encoding), or the not-defined error ---- *)
+Theorem C18_facade_is_validator :
+  forall (D S : Type) (validator : option (D -> S -> res unit)) (data : D) (schema : S),
+  match validator with
+  | Some v => processor_validate validator data schema = v data schema
+  | None => processor_validate validator data schema = Err "validator-not-defined"
+  end.
+Proof. exact facade_is_validator. Qed.
+Print Assumptions C18_facade_is_validator.
+
+(* seeded variants of the facade do not have that property *)
+Theorem C18_facade_reencoding_refuted :
+  exists (reenc : string -> string) (data schema : string),
+    processor_reencoding reenc (Some validate_text) data schema <>
+    processor_validate (Some validate_text) data schema.
+Proof. exact facade_reencoding_refuted. Qed.
+Print Assumptions C18_facade_reencoding_refuted.
+
+Theorem C18_facade_lenient_refuted :
+  exists data schema : string,
+    processor_lenient (@None (string -> string -> res unit)) data schema <>
+    processor_validate (@None (string -> string -> res unit)) data schema.
+Proof. exact facade_lenient_refuted. Qed.
+Print Assumptions C18_facade_lenient_refuted.
